@@ -99,6 +99,27 @@ def handle : List String → Option String
       let approved := processed == "1" || outcome == "dry-ok" || outcome == "broadcast"
       some (toString (!approved || advertised v named amount sim ins))
     | _, _, _, _ => some "bad-op"
+  /- per-position facts on the implementation's outcome: an approval means the ONE wallet input
+     (at its real position) is unsigned and every other position is signed; an error naming a
+     signed seller input names the wallet input and it is signed; an error naming an unsigned
+     buyer input names a non-wallet position that is unsigned -/
+  | ["offer.oracle.positions", unspent, locked, ins, outcome] =>
+    match parseView unspent locked "-", parseIns ins with
+    | some v, some ins =>
+      let seller := sellerIndex v ins
+      let pre := fun (p : String) => if outcome.startsWith p then some (outcome.drop p.length).toString else none
+      if outcome == "dry-ok" || outcome == "broadcast" || outcome.startsWith "err_buyer-sig-changed:"
+          || outcome == "err_seller-not-signed" then
+        match seller with
+        | some idx => some (toString (othersSigned idx ins 0))
+        | none => some "false"
+      else match pre "err_seller-signed:", pre "err_buyer-unsigned:", seller with
+        | some op, _, some idx => some (toString (namesInput idx true false op ins 0))
+        | _, some op, some idx => some (toString (namesInput idx false true op ins 0))
+        | some _, _, none => some "false"
+        | _, some _, none => some "false"
+        | none, none, _ => some "true"
+    | _, _ => some "bad-op"
   /- a dry run or a rejection never asks the node to sign or broadcast and leaves the mempool
      empty; a broadcast did both and left exactly one transaction -/
   | ["offer.oracle.quiet", dry, outcome, rpc, mempool] =>
